@@ -85,7 +85,7 @@ func eofdrainCase(seed uint64, idx int) *CaseSpec {
 		var rpcErr error
 		select {
 		case rpcErr = <-done:
-		case <-time.After(20 * time.Second):
+		case <-time.After(wd(20 * time.Second)):
 			return fail("eofdrain: the Modify RPC did not end after the client's half-close (hang)")
 		}
 		time.Sleep(5 * time.Millisecond)
